@@ -95,6 +95,9 @@ func genMsgAlg(r *rand.Rand, n int) []string {
 		keys := []msgKey{k}
 		p := buildProduce(r, kind, mode, payloadTok(r, mode, false), prot, genHdrTok(r, 2), extTok(r), keys)
 		out = append(out, p.line)
+		if i%3 == 1 && strings.HasPrefix(p.line, "msg.produce ") { // the same on a message object that was produced once before
+			out = append(out, "msg.produce2 "+strings.TrimPrefix(p.line, "msg.produce "))
+		}
 		// (b) defaults: nil headers record the key's alg and kid
 		p2 := buildProduce(r, kind, mode, payloadTok(r, mode, false), "nil", "nil", extTok(r), keys)
 		out = append(out, p2.line)
@@ -177,6 +180,9 @@ func genMsgNonce(r *rand.Rand, n int) []string {
 		}
 		p := buildProduce(r, kind, mode, payloadTok(r, mode, false), prot, unprot, extTok(r), []msgKey{k})
 		out = append(out, p.line)
+		if i%3 == 1 && strings.HasPrefix(p.line, "msg.produce ") { // the same on a message object that was produced once before
+			out = append(out, "msg.produce2 "+strings.TrimPrefix(p.line, "msg.produce "))
+		}
 		if !p.ok || p.data == nil {
 			continue
 		}
@@ -271,7 +277,7 @@ func genMsgForeign(r *rand.Rand, n int) []string {
 		payload := randBytes(r, []int{0, 1, 23, 24, 255, 256, 300}[r.Intn(7)])
 		algInUnprot := false
 		bodyProt := foreignBucket(r, alg, kind != "sign" && r.Intn(4) != 0) // a quarter carry no alg: the bucket may be h'a0' or h''
-		switch round % 6 {                                    // fixed slots: the three encodings of an empty protected bucket, for every kind
+		switch round % 6 {                                                  // fixed slots: the three encodings of an empty protected bucket, for every kind
 		case 1:
 			bodyProt = []byte{0xa0}
 		case 3:
@@ -329,11 +335,15 @@ func genMsgForeign(r *rand.Rand, n int) []string {
 			if r.Intn(3) == 0 {
 				nSig = 2 + r.Intn(2)
 			}
+			twoUnderOneKid := round%6 == 2 || round%6 == 4 // fixed slots: two signatures under one key (kid), the second naming another algorithm
+			if twoUnderOneKid {
+				nSig = 2
+			}
 			skeys := []msgKey{k}
 			bad := false
 			for j := 0; j < nSig; j++ {
 				sk := k
-				if j > 0 && r.Intn(2) == 0 && len(k.kid) > 0 {
+				if j > 0 && r.Intn(2) == 0 && len(k.kid) > 0 && !twoUnderOneKid {
 					for {
 						sk = genMsgKey(r, alg, false)
 						fresh := len(sk.kid) > 0
@@ -349,10 +359,14 @@ func genMsgForeign(r *rand.Rand, n int) []string {
 					skeys = append(skeys, sk)
 				}
 				signProt := foreignBucket(r, alg, r.Intn(4) != 0) // a quarter without alg: h'a0' or h''
-				if j > 0 && r.Intn(3) == 0 {
+				if j > 0 && (r.Intn(3) == 0 || twoUnderOneKid) {
 					// a later signature names another algorithm than its key's (made with the key over its own bucket, so
 					// the primitive accepts it): the algorithm check is per signature, not per kid
-					signProt = foreignBucket(r, sigAlgs[r.Intn(len(sigAlgs))], true)
+					oa := sigAlgs[r.Intn(len(sigAlgs))]
+					for twoUnderOneKid && oa == alg {
+						oa = sigAlgs[r.Intn(len(sigAlgs))]
+					}
+					signProt = foreignBucket(r, oa, true)
 				}
 				tobe := encStructure("Signature", bodyProt, signProt, extOrEmpty, payload)
 				s, err := keyFromToks(strings.Fields(sk.priv)).Signer()
